@@ -291,6 +291,69 @@ def check_copy_back(ck, tu):
                          "to the caller's array", fn.loc)
 
 
+def check_result_array(ck, tu):
+    """RESULT-ARRAY: what runs after the sub-sorts of a step (substep_all_done, calculate_lcp and what they call) finds
+    the sorted strings in the ORIGINAL array - every leaf sorter copies back - which is the shadow array of a flipped
+    pointer.  A read through p.active() there is right only if p is surely unflipped (a copy_back() result or freshly
+    constructed) or the flipped case selects p.shadow()."""
+    def shadow_ty(t):
+        return "StringShadow" in (t or "")
+
+    def surely_unflipped(e):
+        e0 = match.strip_conv(e)
+        while e0 is not None and e0["k"] in ("MaterializeTemporaryExpr", "CXXBindTemporaryExpr", "ExprWithCleanups", "ParenExpr") and kids(e0):
+            e0 = match.strip_conv(kids(e0)[0])
+        if e0 is None:
+            return False
+        if "callee" in e0 and e0.get("member_call") and e0["callee"]["name"] == "copy_back":
+            return True
+        if e0["k"] in ("CXXConstructExpr", "CXXTemporaryObjectExpr") and len([a for a in kids(e0) if a is not None and a["k"] != "DefaultArg"]) == 2:
+            return True
+        return False
+    roots = [f for f in tu.functions if f.name in ("substep_all_done", "calculate_lcp") and f.body is not None and (f.qname or "").startswith(NS)]
+    ck.require(len(roots) >= 2, "after-recursion hooks (substep_all_done / calculate_lcp) not instantiated")
+    n = 0
+    for root in roots:
+        for c in root.nodes():
+            if "callee" not in c or c["k"] != "CallExpr":
+                continue
+            cal = tu.by_did.get(c["callee"]["did"])
+            if cal is None or cal.body is None:
+                continue
+            for i, (p, a) in enumerate(zip(cal.params, kids(c))):
+                if not shadow_ty(p.get("ty")):
+                    continue
+                reads = [y for y in cal.nodes() if "callee" in y and y.get("member_call") and y["callee"]["name"] == "active" and ref_of(kids(y)[0]) == p["did"]]
+                if not reads:
+                    continue
+                n += 1
+                tag = "%s -> %s [%s]" % (root.qname.split("::")[-2] + "::" + root.name, cal.name, inst(root))
+                bad = None
+                for y in reads:
+                    par = cal.parent(y)
+                    while par is not None and par["k"] in ("ImplicitCastExpr", "MaterializeTemporaryExpr", "ParenExpr"):
+                        par = cal.parent(par)
+                    handled = False
+                    if par is not None and par["k"] == "ConditionalOperator":
+                        cnd, tv, fv = kids(par)
+                        fl = [z for z in ir.walk(cnd) if "callee" in z and z.get("member_call") and z["callee"]["name"] == "flipped" and ref_of(kids(z)[0]) == p["did"]]
+                        neg = any(z["k"] == "UnaryOperator" and z.get("op") == "!" for z in ir.walk(cnd))
+                        t_, f_ = (fv, tv) if neg else (tv, fv)
+                        sh = [z for z in ir.walk(t_) if "callee" in z and z.get("member_call") and z["callee"]["name"] == "shadow" and ref_of(kids(z)[0]) == p["did"]]
+                        if fl and sh and any(z is y for z in ir.walk(f_)):
+                            handled = True
+                    if not handled and not surely_unflipped(a):
+                        bad = y
+                if bad is not None:
+                    ck.violation("RESULT-ARRAY", cal.qname, "%s:%s" % (cal.name, root.name),
+                                 "%s() runs after the sub-sorts have copied their buckets home and reads the strings through %s.active(); the step's pointer (%s) "
+                                 "is flipped when the step sorts a bucket that lives in the shadow array, the sorted strings are then in %s.shadow(): the values "
+                                 "computed here (LCPs at the bucket boundaries) come from stale strings" % (cal.name, p["name"], dtable.describe(a), p["name"]), cal.nloc(bad))
+                else:
+                    ck.ok("RESULT-ARRAY", tag, "reads the original array (flipped ? shadow() : active()) or gets a surely unflipped pointer")
+    ck.require(n >= 2, "no after-recursion reader of a shadow pointer found")
+
+
 def check_packed_lcp(ck, tu):
     """the tree builders store `lcp | (splitter ends inside the key ? FLAG : 0)` into the splitter_lcp byte; every
     reader must therefore select a part of the byte with a constant mask (the flag, or its complement)"""
@@ -505,6 +568,7 @@ def run(ck):
     check_completion(ck, tu)
     check_copy_back(ck, tu)
     check_packed_lcp(ck, tu)
+    check_result_array(ck, tu)
     check_stale_data_pointer(ck, tu)
     ck.require(check_array_bounds(ck, tu) >= 10, "fixed-size arrays of the sample sort classes not found")
     ck.floor("PACKED-LCP-MASK", 12)
@@ -515,3 +579,4 @@ def run(ck):
     ck.floor("PHASE-ARM", 8)
     ck.floor("COMPLETION-BARRIER", 2)
     ck.floor("COPY-BACK", 8)
+    ck.floor("RESULT-ARRAY", 2)
